@@ -1426,6 +1426,8 @@ func (sc *serverConn) handleHeaderFrame(strm *Stream, fr *FrameHeader) (err erro
 			return NewGoAwayError(ProtocolError, "stream not open")
 		}
 
+		strm.trailers = true
+
 		if !fr.Flags().Has(FlagEndHeaders) {
 			strm.headersFinished = false
 		}
@@ -1528,6 +1530,13 @@ func (sc *serverConn) handleHeaderFrame(strm *Stream, fr *FrameHeader) (err erro
 		}
 
 		if hf.IsPseudo() {
+			// Pseudo-header fields must not appear in trailers, whether or not
+			// the request had a regular field for them to come after.
+			// https://httpwg.org/specs/rfc7540.html#rfc.section.8.1.2.1
+			if strm.trailers {
+				return NewResetStreamError(ProtocolError, "pseudo-header field in trailers")
+			}
+
 			// All pseudo-header fields must appear before regular header fields.
 			// https://httpwg.org/specs/rfc7540.html#rfc.section.8.1.2.1
 			if strm.regularSeen {
@@ -1589,6 +1598,10 @@ func (sc *serverConn) handleHeaderFrame(strm *Stream, fr *FrameHeader) (err erro
 			req.Header.SetUserAgentBytes(v)
 		case bytes.Equal(k, StringContentType):
 			req.Header.SetContentTypeBytes(v)
+		case bytes.Equal(k, StringContentLength) && strm.trailers:
+			// The length the request was framed with is the one its header
+			// block declared. A trailer has no say in it (RFC 7230 4.1.2), and
+			// must not put a wrong declaration right after the fact.
 		case bytes.Equal(k, StringContentLength):
 			if n, perr := parseUint(v); perr == nil {
 				if sc.maxRequestBodySize > 0 && n > sc.maxRequestBodySize {
